@@ -22,7 +22,8 @@ theorem subcall_tm (C : Crypto) (cx : ICtx) (dst : Bytes) (f : String) (e : Nat)
     ∃ w1 out w2, World.pay t.w cx.self dst e es = some w1 ∧
       TokenManager.call (t.w.tms dst) ⟨cx.self, dst, t.w.now, e, es⟩ f args = .ok out ∧
       applyEffects { w1 with tms := upd w1.tms dst out.st } dst out.effects = some w2 ∧
-      t'.w.accts = w2.accts ∧ rs = out.results ∧ t'.w.kind = t.w.kind := by
+      t'.w.accts = w2.accts ∧ rs = out.results ∧ t'.w.kind = t.w.kind ∧
+      t'.w.tms = upd t.w.tms dst out.st ∧ t'.w.now = t.w.now := by
   unfold subcall at h
   cases hp : World.pay t.w cx.self dst e es with
   | none => simp [hp] at h
@@ -49,10 +50,17 @@ theorem subcall_tm (C : Crypto) (cx : ICtx) (dst : Bytes) (f : String) (e : Nat)
           have hk3 : w3.kind = t.w.kind := by
             rw [(applyEffects_bal _ _ _ _ he).kind]
             first | rfl | exact hb.kind
+          have ht3 : w3.tms = upd t.w.tms dst out.st := by
+            rw [(applyEffects_bal _ _ _ _ he).tms]
+            show upd w1.tms dst out.st = _
+            rw [hb.tms]
+          have hn3 : w3.now = t.w.now := by
+            rw [(applyEffects_bal _ _ _ _ he).now]
+            exact hb.now
           refine ⟨w1, out, w3, rfl, hcall, he, ?_⟩
           split at hc
-          · cases hc; exact ⟨rfl, rfl, hk3⟩
-          · cases hc; exact ⟨rfl, rfl, hk3⟩
+          · cases hc; exact ⟨rfl, rfl, hk3, ht3, hn3⟩
+          · cases hc; exact ⟨rfl, rfl, hk3, ht3, hn3⟩
       · cases hc
 
 /-- a synchronous call to the gateway moves nothing -/
@@ -133,7 +141,7 @@ theorem tmGiveToken_led (C : Crypto) (cx : ICtx) (tid dest : Bytes) (amount : Na
     | some x =>
       obtain ⟨rs, tt⟩ := x
       simp only [hs] at h
-      obtain ⟨w1, out, w2, hp, hcall, heff, hacc, hrs, _⟩ := subcall_tm C cx _ _ _ _ _ t tt rs hk hs
+      obtain ⟨w1, out, w2, hp, hcall, heff, hacc, hrs, _, _, _⟩ := subcall_tm C cx _ _ _ _ _ t tt rs hk hs
       -- the dispatcher reaches `giveToken` with the decoded arguments
       have hcall2 : ∃ d, topFixed 32 dest = some d ∧
           TokenManager.giveToken (t.w.tms (t.w.its.tmAddress tid)) ⟨cx.self, t.w.its.tmAddress tid, t.w.now, 0, []⟩ d
@@ -277,7 +285,7 @@ theorem tmTakeToken_led (C : Crypto) (cx : ICtx) (tid : Bytes) (tok : Its.Tok) (
       obtain ⟨rs, tt⟩ := x
       simp only [hs, run_pure, Option.some.injEq, Prod.mk.injEq, true_and] at h
       subst h
-      obtain ⟨w1, out, w2, hp, hcall, heff, hacc, _, hkind'⟩ := subcall_tm C cx _ _ _ _ _ t tt rs hk hs
+      obtain ⟨w1, out, w2, hp, hcall, heff, hacc, _, hkind', _, _⟩ := subcall_tm C cx _ _ _ _ _ t tt rs hk hs
       have hcall2 : TokenManager.takeToken (t.w.tms (t.w.its.tmAddress tid))
           ⟨cx.self, t.w.its.tmAddress tid, t.w.now, (payOf tok amount).1, (payOf tok amount).2⟩ = .ok out := by
         unfold TokenManager.call at hcall
@@ -511,5 +519,24 @@ theorem callContract_led (C : Crypto) (cx : ICtx) (dc da p : Bytes) (gasTok : It
         have ho := subcall_gateway_only C cx _ _ _ t _ rs2 hkgw hs2
         refine ⟨ho.led.conv (by intro x k; simp [pt, nil]), ho.tms, ho.kind, ho.its⟩
   · simp [hda] at h
+
+end Axelar.ItsW
+
+namespace Axelar.ItsW
+open Axelar Codec Its World
+
+/-- a synchronous call WITHOUT payment to a token manager: the manager's own transition on its
+    own state; the service's storage, the kinds, the clock and every other manager are untouched -/
+theorem subcall_tm_call (C : Crypto) (cx : ICtx) (tm : Bytes) (f : String) (args : List Bytes) (t t' : Tx)
+    (rs : List Bytes) (hk : t.w.kind tm = some .tokenManager)
+    (h : subcall C cx tm f 0 [] args t = some (rs, t')) :
+    ∃ out, TokenManager.call (t.w.tms tm) ⟨cx.self, tm, t.w.now, 0, []⟩ f args = .ok out ∧
+      t'.w.tms = upd t.w.tms tm out.st ∧ t'.w.kind = t.w.kind ∧ t'.w.its = t.w.its ∧ t'.w.now = t.w.now ∧
+      rs = out.results ∧
+      ∃ w2, applyEffects { t.w with tms := upd t.w.tms tm out.st } tm out.effects = some w2 ∧ t'.w.accts = w2.accts := by
+  obtain ⟨w1, out, w2, hp, hcall, heff, hacc, hrs, hkind, htms, hnow⟩ := subcall_tm C cx tm f 0 [] args t t' rs hk h
+  have hw1 := pay_zero_eq _ _ _ _ hp
+  subst hw1
+  exact ⟨out, hcall, htms, hkind, subcall_keeps_its _ _ _ _ _ _ _ _ _ _ h, hnow, hrs, w2, heff, hacc⟩
 
 end Axelar.ItsW
